@@ -569,8 +569,8 @@ class Engine:
         if m: return IntV(z3.IntVal(int(m.group(1))), m.group(2))
         if s == 'true': return BoolV(z3.BoolVal(True))
         if s == 'false': return BoolV(z3.BoolVal(False))
-        m = re.match(r'^core::num::<impl (\w+)>::(MAX|MIN)$', s)
-        if m: return IntV(z3.IntVal(INT_RANGES[m.group(1)][1 if m.group(2) == 'MAX' else 0]), m.group(1))
+        m = re.match(r'^core::num::<impl (\w+)>::(MAX|MIN)$', s) or re.match(r'^([iu](?:8|16|32|64|128|size))::(MAX|MIN)$', s)
+        if m and m.group(1) in INT_RANGES: return IntV(z3.IntVal(INT_RANGES[m.group(1)][1 if m.group(2) == 'MAX' else 0]), m.group(1))
         if s.startswith('ZeroSized') or s == '()': return StructV('zst', 'zst', {}, lazy=False)
         am = re.match(r'^\{(alloc\d+)(?:<imm>)?: &(.*)\}$', s)
         if am:
